@@ -140,7 +140,7 @@ func upstream(p *Proj, l string) map[string]bool {
 	// the sources of everything reached
 	for k := range out {
 		if t := p.tgt(k); t != nil {
-			for _, s := range t.Srcs {
+			for _, s := range p.srcsOf(t) {
 				out[sourceLabelOf(s)] = true
 			}
 		}
@@ -165,7 +165,7 @@ func alwaysDownstream(p *Proj, root string) map[string]bool {
 					hit = true
 				}
 			}
-			for _, s := range t.Srcs {
+			for _, s := range p.srcsOf(t) {
 				if a[sourceLabelOf(s)] {
 					hit = true
 				}
@@ -351,7 +351,7 @@ func (j *judge) judgeGC(i int, op *Op, p *Proj, o *Obs, prev *Obs) {
 		if t.Default {
 			live[defaultLabel(t.Pkg)] = true
 		}
-		for _, s := range t.Srcs {
+		for _, s := range p.srcsOf(t) {
 			live[sourceLabelOf(s)] = true
 		}
 	}
